@@ -13,6 +13,7 @@ RULE = ("each case runs a structure (repository proteins, cut-outs, chimeras wit
         "nothing. Non-trivial: L is a proper non-empty subset holding >= 1 site and the complement holds "
         ">= 1 site; distinct = distinct (input digest, list)."
         " Multi-file cases: propka.run.main with 2-3 files and one -i list naming residues of each; every file must come out as when run on its own with that list.")
+RULE = RULE + ' Rounds 10-12: acid-base pairs settled by the iteration with one member listed (their hydrogen bond must stay); ligands split over two residues with one residue listed; a listed group is never discarded for one that does not titrate; multi-conformation inputs - one answer per atom position.'
 ASSUMPTIONS = ["blank chain identifiers are avoided: the option has no syntax for them",
                "Coulomb and iterative side-chain terms between a listed and an unlisted group are not compared "
                "with the unrestricted run (they legitimately differ: the unlisted group no longer titrates)"]
